@@ -87,6 +87,7 @@ type rcHandler struct {
 	gate chan struct{} // non-nil: the next handler call blocks until it is closed
 	in   bool          // a call is blocked
 	slow time.Duration // every call takes this long (a slow application)
+	tips bool          // ReceiveBacklog driver: chain tips are recorded (height = send number); heights >= rbFloodBase only pass the gate
 }
 
 func (h *rcHandler) add(k string, id int) { h.addn(k, id, -1) }
@@ -121,7 +122,26 @@ func (h *rcHandler) HandleMessage(ctx context.Context, p MessagePayload) {
 	if a, ok := p.(*AcceptRegister); ok {
 		h.addn("accepted", 0, int(a.MessageCount))
 	}
+	if t, ok := p.(*ChainTip); ok && h.tips {
+		if t.Height >= rbFloodBase {
+			h.mu.Lock()
+			g := h.gate
+			h.mu.Unlock()
+			if g != nil {
+				<-g
+			}
+			return
+		}
+		h.addn("tip", 0, int(t.Height))
+	}
 }
+
+const rbFloodBase = 1000000
+
+// connection retry delay and message channel time-out of the clients newRC makes (the ReceiveBacklog driver needs a retry delay long
+// enough to act between a teardown and the next connection, and a message loop that stays blocked as long as the script says)
+var rcRetryDelay = 40 * time.Millisecond
+var rcMsgTimeoutCfg = rcMsgTimeout
 
 type rcH struct {
 	t         *testing.T
@@ -278,11 +298,11 @@ func newRC(t *testing.T, ctype ConnectionType, ncalls int) *rcH {
 		}
 	}()
 	cfg := NewConfig(h.ln.Addr().String(), h.serverKey.PublicKey(), h.clientKey, 100, ctype)
-	cfg.RetryDelay = config.NewDuration(40 * time.Millisecond)
+	cfg.RetryDelay = config.NewDuration(rcRetryDelay)
 	cfg.RequestTimeout = config.NewDuration(rcReqTimeout)
 	cfg.DialTimeout = config.NewDuration(time.Second)
 	cfg.HandshakeTimeout = config.NewDuration(20 * time.Second)
-	cfg.MessageChannelTimeout = config.NewDuration(rcMsgTimeout)
+	cfg.MessageChannelTimeout = config.NewDuration(rcMsgTimeoutCfg)
 	cfg.RetryError = config.NewDuration(10 * time.Minute)
 	h.c, err = NewRemoteClient(cfg)
 	if err != nil {
